@@ -14,21 +14,25 @@ def claim(pid, category, engine, technique, text, note, ref):
     CHECKS[pid] = dict(category=category, engine=engine, technique=technique, text=text, note=note, ref=ref)
 
 
-claim("C18", "model_checking", "histx",
-      "explicit-state exploration of cursor-operation histories on the real file objects against an integer cursor model",
-      "Every in-range sequence over {read(n), read(), seek(k), seek(d,1), tell, len} to depth 3 (thorough 4) on one handle "
-      "and depth 2 (3) interleaved over two handles, without state merging, plus a BFS closure over the model states "
-      "(position, offsets-known, end-reached, last op) at any depth, for 11 format fixtures with and without atom_indices; "
-      "every step is executed on the real object and compared with the model and with the frames of a full read. "
-      "Right level: the property is a statement about all histories of a tiny state machine.",
-      "Bounded: N=5 frames, 4 (xtc: 4 and 12) atoms; out-of-range operations are not issued; full read is the data oracle "
-      "(anchored by C01/C02); .pyx logic is exercised as compiled from the generated C in the tree.",
-      "DESIGN.md §3 C18, §2.2")
+def load_claims():
+    """Each props/Cxx.py carries a literal  MANIFEST = {category, engine, technique, text, note, ref}."""
+    import ast
+    pdir = os.path.join(VERIF, "props")
+    for fn in sorted(os.listdir(pdir)):
+        if not (fn.startswith("C") and fn.endswith(".py")):
+            continue
+        tree = ast.parse(open(os.path.join(pdir, fn)).read())
+        for node in tree.body:
+            if isinstance(node, ast.Assign) and getattr(node.targets[0], "id", None) == "MANIFEST":
+                d = ast.literal_eval(node.value)
+                claim(fn[:-3], d["category"], d["engine"], d["technique"], d["text"], d["note"], d["ref"])
+
 
 ALL = ["C%02d" % i for i in range(1, 21)]
 
 
 def main():
+    load_claims()
     checks = []
     for pid in ALL:
         if pid not in CHECKS:
